@@ -30,6 +30,7 @@ struct Problem
                        // references to J, Y, W that were obtained once, right after construction,
                        // 3 only Y is rewritten (through a fresh getY()); J stays what the buffers hold,
                        // 4 only J is rewritten (through a fresh getJ()); Y stays what the buffers hold
+  bool copy = false;    // before this problem the solver is replaced by a copy of itself (the original stays alive)
   bool resolve = false; // after the solve, solve the same data again with the other un-weighted path (paths 0/1 only)
 };
 
@@ -79,6 +80,7 @@ Data makeData(const Problem & pb, int p)
   d.A = u * dd.asDiagonal() * v.transpose();
   if (r.chance(0.25)) {d.A = MatD::Identity(p, p);}   // a pure re-centring preconditioner: x = x0 + b
   if (r.chance(0.4)) {d.A *= r.logUniform(1e-4, 1e4);}  // preconditioners rescale: A is well conditioned but not of unit size
+  if (r.chance(0.3)) {for (int i = 0; i < m; ++i) {if (r.chance(0.3)) {d.W(i) = -d.W(i);}}}   // the cost depends on w squared
   // some weights exactly zero (rows switched off), never so many that fewer than p + 2 rows remain
   if (r.chance(0.3)) {int z = (int)r.range(1, std::max(1, (m - p - 2) / 3)); for (int k = 0; k < z && m - p - 2 > 0; ++k) {d.W((long)r.below((uint64_t)m)) = 0;}}
   d.b.resize(p); for (int k = 0; k < p; ++k) {d.b(k) = r.uniform(-3, 3);}
@@ -103,6 +105,7 @@ Outcome runHistory(const Plan & pl, Ctx & c)
   int prevM = -1, prevRows = 0; size_t no = 0;
   // references a caller may legitimately keep: the member matrices live as long as the solver
   Mat * Jref = &ls->getJ(); Vec * Yref = &ls->getY(); Vec * Wref = &ls->getW();
+  std::unique_ptr<LS> sibling; Mat sibJ; Vec sibY;
 
   // a bystander: another solver that solves the same tiny exact problem at every step
   LS bystander((size_t)2);
@@ -120,6 +123,16 @@ Outcome runHistory(const Plan & pl, Ctx & c)
     {Outcome ob = checkBystander(); if (!ob.ok) {return ob;}}
     const int m = std::max(pb.m, p);
     Data d = makeData(pb, p);
+    if (pb.copy) {
+      // continue on a copy (alternately copy-constructed and copy-assigned over another solver); the original stays
+      // alive as a sibling whose buffers must not be touched by what the copy does
+      std::unique_ptr<LS> cp;
+      if (no & 1) {cp.reset(new LS(*ls));} else {cp.reset(new LS((size_t)(p + 1), (size_t)7)); *cp = *ls;}
+      sibling = std::move(ls); ls = std::move(cp);
+      const LS & sb = *sibling; sibJ = sb.getJ(); sibY = sb.getY();
+      Jref = &ls->getJ(); Yref = &ls->getY(); Wref = &ls->getW();
+      SIM_PROBE("continue_on_a_copy_of_the_solver");
+    }
     bool grew = ls->setDataSize((size_t)m);
     if (grew != (m > rows)) {
       return Outcome::fail("setDataSize-result", fmt("problem #%zu: setDataSize(%d) returned %d with buffers of %d rows", no, m, grew, rows));
@@ -161,7 +174,7 @@ Outcome runHistory(const Plan & pl, Ctx & c)
     const LS & cls = *ls;
     Mat J = cls.getJ().topRows(m); Vec Y = cls.getY().head(m); Vec W = cls.getW().head(m);
     Mat A = d.A.template cast<T>(); Vec b = d.b.template cast<T>();
-    if (!J.allFinite() || !Y.allFinite() || (pb.path == 2 && (!W.allFinite() || W.minCoeff() < 0))) {SIM_COUNT("op.skipped_non_finite_leftover_prefix"); prevM = m; prevRows = (int)cls.getJ().rows(); continue;}
+    if (!J.allFinite() || !Y.allFinite() || (pb.path == 2 && !W.allFinite())) {SIM_COUNT("op.skipped_non_finite_leftover_prefix"); prevM = m; prevRows = (int)cls.getJ().rows(); continue;}
     // singular values of the problem actually solved (the prefix of an earlier matrix has its own conditioning)
     double sigmaMax, sigmaMin;
     {
@@ -292,6 +305,12 @@ Outcome runHistory(const Plan & pl, Ctx & c)
                  "(rounding allowance %.3g)", no, pathName[1 - pb.path], diff / (ref + 1e-300), roundoff));
       }
     }
+    if (sibling) {
+      const LS & sb = *sibling;
+      if (!(sb.getJ().rows() == sibJ.rows() && sb.getJ() == sibJ && sb.getY() == sibY)) {
+        return Outcome::fail("original-changed-through-its-copy", fmt("problem #%zu: solving on a copy changed the J / Y buffers of the solver it was copied from", no));
+      }
+    }
     if (pb.scale < 1e-3) {SIM_PROBE("small_scale_problem");}
     if (pb.scale > 1e3) {SIM_PROBE("large_scale_problem");}
     if (pb.cond > 1e4) {SIM_PROBE("ill_conditioned_problem");}
@@ -359,6 +378,7 @@ struct PropC07
       pb.poison = true;
       pb.fill = fillStyle == 0 ? 0 : (int)r.below(5);
       pb.resolve = r.chance(0.2);
+      pb.copy = k > 0 && r.chance(0.08);
       p.problems.push_back(pb);
     }
     return p;
@@ -380,7 +400,7 @@ struct PropC07
       Json o = Json::object();
       o.set("data_size", pb.m).set("cond", pb.cond).set("scale", pb.scale).set("noise", pb.noise).set("solve", pathName[pb.path]).set("path", pb.path)
       .set("set_preconditioner", pb.precond == 0 ? "no" : (pb.precond == 1 ? "A" : "A,b")).set("precond", pb.precond).set("covariance", pb.covariance)
-      .set("poison_stale_rows", pb.poison).set("fill", pb.fill == 0 ? "fresh getJ()/getY()/getW()" : (pb.fill == 1 ? "none: prefix of what the buffers hold" : (pb.fill == 2 ? "references kept from construction" : (pb.fill == 3 ? "only Y rewritten" : "only J rewritten")))).set("fill_mode", pb.fill).set("solve_again_other_path", pb.resolve).set("data_seed_hi", (long long)(pb.seed >> 32)).set("data_seed_lo", (long long)(pb.seed & 0xffffffffULL));
+      .set("poison_stale_rows", pb.poison).set("fill", pb.fill == 0 ? "fresh getJ()/getY()/getW()" : (pb.fill == 1 ? "none: prefix of what the buffers hold" : (pb.fill == 2 ? "references kept from construction" : (pb.fill == 3 ? "only Y rewritten" : "only J rewritten")))).set("fill_mode", pb.fill).set("solve_again_other_path", pb.resolve).set("continue_on_copy", pb.copy).set("data_seed_hi", (long long)(pb.seed >> 32)).set("data_seed_lo", (long long)(pb.seed & 0xffffffffULL));
       a.push(o);
     }
     j.set("problems", a);
@@ -392,7 +412,7 @@ struct PropC07
     Plan p; p.isFloat = j["is_float"].b(); p.p = (int)j["estimate_size"].i(); p.ctorRows = (int)j["constructed_with_rows"].i();
     for (auto & o : j["problems"].a()) {
       Problem pb; pb.m = (int)o["data_size"].i(); pb.cond = o["cond"].d(); pb.scale = o["scale"].d(); pb.noise = o["noise"].d(); pb.path = (int)o["path"].i();
-      pb.precond = (int)o["precond"].i(); pb.covariance = o["covariance"].b(); pb.poison = o["poison_stale_rows"].b(); pb.fill = o.has("fill_mode") ? (int)o["fill_mode"].i() : 0; pb.resolve = o["solve_again_other_path"].b();
+      pb.precond = (int)o["precond"].i(); pb.covariance = o["covariance"].b(); pb.poison = o["poison_stale_rows"].b(); pb.fill = o.has("fill_mode") ? (int)o["fill_mode"].i() : 0; pb.resolve = o["solve_again_other_path"].b(); pb.copy = o["continue_on_copy"].b();
       pb.seed = ((uint64_t)o["data_seed_hi"].i() << 32) | (uint64_t)o["data_seed_lo"].i();
       p.problems.push_back(pb);
     }
@@ -416,6 +436,7 @@ struct PropC07
       if (pb.path != 1) {Plan q = p; q.problems[k].path = 1; out.push_back(q);}
       if (pb.fill != 0) {Plan q = p; q.problems[k].fill = 0; out.push_back(q);}
       if (pb.resolve) {Plan q = p; q.problems[k].resolve = false; out.push_back(q);}
+      if (pb.copy) {Plan q = p; q.problems[k].copy = false; out.push_back(q);}
     }
     return out;
   }
@@ -441,7 +462,7 @@ struct PropC07
   {
     std::string s = o.cls + "|" + (p.isFloat ? "float" : "double") + "|";
     int rows = std::max(0, p.ctorRows);
-    for (auto & pb : p.problems) {int m = std::max(pb.m, p.p); s += m > rows ? "G" : (m < rows ? "S" : "E"); s += "scw"[pb.path]; if (pb.fill) {s += "?kryj"[pb.fill];} if (pb.resolve) {s += "2";} rows = std::max(rows, m);}
+    for (auto & pb : p.problems) {int m = std::max(pb.m, p.p); s += m > rows ? "G" : (m < rows ? "S" : "E"); s += "scw"[pb.path]; if (pb.fill) {s += "?kryj"[pb.fill];} if (pb.resolve) {s += "2";} if (pb.copy) {s += "C";} rows = std::max(rows, m);}
     return s;
   }
   std::vector<uint64_t> sampleIndexes() const {return {0, 2, 3, 4};}
@@ -449,7 +470,7 @@ struct PropC07
   {
     return {"grow_reallocates_buffers", "shrink_leaves_stale_rows", "same_size_as_buffers", "smaller_problem_after_larger", "grow_within_existing_buffers",
       "preconditioner_carried_over_from_earlier_problem", "default_constructed_then_setEstimateSize", "problem_is_prefix_of_previous_buffers_no_write",
-      "problem_written_through_references_kept_from_start", "only_Y_rewritten", "only_J_rewritten", "second_solve_on_same_data_other_path", "unweighted_solve_of_the_buffers_right_after_a_weighted_solve", "small_scale_problem", "large_scale_problem", "ill_conditioned_problem", "square_problem"};
+      "problem_written_through_references_kept_from_start", "only_Y_rewritten", "only_J_rewritten", "second_solve_on_same_data_other_path", "unweighted_solve_of_the_buffers_right_after_a_weighted_solve", "continue_on_a_copy_of_the_solver", "small_scale_problem", "large_scale_problem", "ill_conditioned_problem", "square_problem"};
   }
   Json describe() const
   {
